@@ -96,6 +96,8 @@ def build(tier, seed, known):
             for dc in (True, False):
                 if dc and L > (1 if tier == 'quick' else 2):
                     continue
+                if dc and L == 1 and tier == 'quick' and cname != 'top':
+                    continue
                 nm = "str_%s_len%d_%s" % (cname, L, "dict" if dc else "raw")
                 src += "REF_%s = transpile_det(%r + chr(96) + 'QZQ' + chr(96) + %r, %r)\n" % (nm, pre, post, dc)
                 add(nm, "string", "p: str", ["len(p) == %d" % L, "chr(96) not in p", "chr(92) not in p"],
@@ -110,6 +112,8 @@ def build(tier, seed, known):
              "return code_ok(out, REF_%s.replace('aQZQb', 'QZQ'), 'QZQ', 'strbody')" % nm], 200, "escape pair backslash+c inside a string in context %s" % cname, "c any Unicode character")
         # an escape pair followed by arbitrary text (e.g. an escaped backslash followed by a bare quote)
         for L in (1, 2) if tier == "quick" else (1, 2, 3):
+            if tier == "quick" and L == 2 and cname != "top":
+                continue
             nm = "stresc_then_%s_len%d" % (cname, L)
             add(nm, "string", "c: str, p: str", ["len(c) == 1", "len(p) == %d" % L, "chr(96) not in p", "chr(92) not in p"],
                 ["try:", "    out = transpile_det(%r + chr(96) + chr(92) + c + p + chr(96) + %r, False)" % (pre, post), "except Exception:", "    return note('transpile raised')",
